@@ -66,7 +66,9 @@ reference run opens, every header is OK, every body ends cleanly and the archive
 ends with EOF, with nothing flagged. -/
 def Rec.clean (r : Rec) : Bool :=
   r.openSt == "ok" && r.final == "eof" && r.tail == ["close=ok", "free=ok", "fds=0"] &&
-  r.ents.all fun e => !e.bare && e.hst == "ok" && e.bst == "eof" && e.flags == "-"
+  r.ents.all fun e => !e.bare && e.hst == "ok" && e.flags == "-" &&
+    -- body read to its clean end, or skipped / left alone / read as a prefix on purpose
+    (e.bst == "eof" || (e.len == "-" && (e.bst == "ok" || e.bst == "none")) || e.bst == "part")
 
 /-- Per-entry consumption choices of the engine. -/
 def predictEnt (e : Ent) (c : String) : Ent :=
